@@ -135,7 +135,7 @@ theorem importMedit_exportMedit_repr (h : Reads cdw cdr ι) (m : Raw Cw) :
         unfold medEdges hardEdges
         cases m.hard with
         | none => exact hn
-        | some l => simp [hn]
+        | some l => simp only [hn]; split <;> simp
       simp [hn, this, foldOpt, Raw.empty]
     · simp only [hn, if_false, foldOpt]
       have a1 : stepMedit cdr meditRows (.idle, { (Raw.empty : Raw Cr) with verts := m.verts.map (mapPt ι) }) [.kw "Edges"]
